@@ -138,7 +138,12 @@ impl Substance {
                             let res = (&v.output * &self.amount).unwrap();
                             (None, try_div!(res, v.input, context))
                         } else {
-                            (Some(v.input.clone()), v.output.clone())
+                            // Scale by the (dimensionless) amount, the same way
+                            // `property of substance` does.
+                            (
+                                Some(v.input.clone()),
+                                (&v.output * &self.amount).unwrap(),
+                            )
                         };
                         let (input, output) = if output.unit != unit.unit {
                             if let Some(input) = input {
@@ -281,7 +286,12 @@ impl Substance {
                             let res = (&v.output * &self.amount).unwrap();
                             (None, try_div!(res, v.input, context))
                         } else {
-                            (Some(v.input.clone()), v.output.clone())
+                            // Scale by the (dimensionless) amount, the same way
+                            // `property of substance` does.
+                            (
+                                Some(v.input.clone()),
+                                (&v.output * &self.amount).unwrap(),
+                            )
                         };
                         Ok(PropertyReply {
                             name: k.clone(),
